@@ -28,6 +28,9 @@ func (f *Flow) OnStop(s *Sim) {
 	if !s.ended {
 		f.pollExchanges()
 	}
+	if f.FS != nil {
+		f.resyncMirror()
+	}
 	si := &StopInfo{Gen: w.Gen, Step: w.Steps, Lower: map[int]bool{}, Upper: map[int]bool{}, Rel: map[int]bool{}, RelMaybe: map[int]bool{}}
 	for _, pb := range f.Pubs {
 		onDisk := false
